@@ -151,6 +151,19 @@ class CtxBase:
         self._streams.append(stream)
         return stream
 
+    def walk(self, make):
+        """drain(make()) after an earlier walk over the same holder that was abandoned after its first item (the usual "find the first
+        X and break" loop): whatever a generator keeps on its holder while it runs must not change what a later, complete walk yields"""
+        it = iter(make())
+        try:
+            next(it)
+        except StopIteration:
+            pass
+        except Exception:
+            pass            # the complete walk below meets the same error
+        del it
+        return self.drain(make())
+
     def drain(self, iterable):
         """list(iterable), but between two steps of the iterator every tracked stream is left at an arbitrary position (one
         symbolic position per drain): an iterator must not rely on where the shared stream was left while it was suspended,
